@@ -73,6 +73,16 @@ def check_L_create(S, p):
                 else:
                     reqs.append(E.l2_request(data, smap, threads=threads, chunks=[first] + [rng.randint(1, 64) for _ in range(40)], rest=rng.randint(1, 64)))
                 meta.append(("chunk", (first, rest_kind)))
+            # the builder's explicit options (what the input really is): compression given + format detected, compression detected +
+            # format given, both given - the default builder auto-detects both
+            true_comp = "bgzf" if fmt in ("vcf.gz", "bcf") else "none"
+            true_fmt = "bcf" if "bcf" in fmt else "vcf"
+            comp_o, fmt_o = [(true_comp, None), (None, true_fmt), (true_comp, true_fmt)][first % 3]
+            if first % 2:
+                reqs.append(E.l2_request(data, smap, threads=threads, chunks=[first], compression=comp_o, format=fmt_o))
+            else:
+                reqs.append(E.l2_request(data, smap, threads=threads, chunks=[first], rest=rng.choice([1, 2, 3, 7]), compression=comp_o, format=fmt_o))
+            meta.append(("chunk", (first, "options compression=%s format=%s" % (comp_o or "auto", fmt_o or "auto"))))
         for off in range(n):
             kind = KINDS[off % 3]
             for mode in MODES:
@@ -93,6 +103,9 @@ def check_L_create(S, p):
                 first, rest_kind = arg
                 if rest_kind == "all":
                     S.observe("first_chunk_lengths_%s" % fmt, first)
+                if rest_kind.startswith("options"):
+                    S.count("L_chunk_explicit_builder_options")
+                    S.observe("builder_options", "%s %s" % (fmt, rest_kind[8:]))
                 seen_first = (r.get("io", {}).get("first_chunks") or [None])[0]
                 if "panic" in r or r.get("died") or r.get("thread_panic"):
                     S.viol("C18:panic", "[L %s first chunk %d rest %s] panicked: %s" % (fmt, first, rest_kind, str(r)[:300]), dict(wit0, first=first, rest=rest_kind))
